@@ -10,10 +10,12 @@ import (
 	"bytes"
 	"crypto/sha256"
 	"encoding/hex"
+	"errors"
 	"fmt"
 	"os"
 	"os/exec"
 	"path/filepath"
+	"regexp"
 	"sort"
 	"strings"
 	"sync"
@@ -184,10 +186,33 @@ func BuildFromIn(base, src string, c Config, prepareOnly bool) (*Build, error) {
 	log, err := RunPrebuild(dir, c, prepareOnly)
 	b := &Build{Dir: dir, Cfg: c, Log: log}
 	if err != nil {
+		if isBuildAbort(err, log) && src == repoRoot() {
+			noteBuildAbort(c.String(), tail(strings.TrimSpace(stripANSI(log)), 600))
+		}
 		return b, fmt.Errorf("prebuild %s failed: %v\n%s", c, err, tail(log, 2000))
 	}
 	return b, nil
 }
+
+// isBuildAbort: the program ran and gave up by itself (exit status, not a signal), and not for
+// lack of a resource.
+func isBuildAbort(err error, log string) bool {
+	var ee *exec.ExitError
+	if !errors.As(err, &ee) || ee.ExitCode() <= 0 {
+		return false
+	}
+	low := strings.ToLower(log)
+	for _, s := range []string{"no space left", "cannot allocate memory", "too many open files", "resource temporarily unavailable", "read-only file system"} {
+		if strings.Contains(low, s) {
+			return false
+		}
+	}
+	return true
+}
+
+var reANSI = regexp.MustCompile("\x1b\\[[0-9;]*m")
+
+func stripANSI(s string) string { return reANSI.ReplaceAllString(s, "") }
 
 func tail(s string, n int) string {
 	if len(s) > n {
